@@ -1,7 +1,12 @@
 FIX_COMMITS = ["d6ae502 (passive start-up cancellation: port/listener leak)",
                "40b0ee0 (data connection not closed when open() fails or is cancelled)",
                "5c25b75 (ABOR before the data connection killed the session)",
-               "4aed819 (ABOR unanswered when the worker had just finished)"]
+               "4aed819 (ABOR unanswered when the worker had just finished)",
+               "2039146 (REST with non-decimal digit crashed the session)",
+               "e81490a (EPSV arg / PASV-on-IPv6 replies closed the session)",
+               "e3fcd28 (REST offset applied to every following transfer)",
+               "238797d (MemoryPathIO r+b created missing files)",
+               "eae4544 (MemoryPathIO.rename lost the source)"]
 
 ENV_NOTE = ("Trusted base: the environment model (vf/simloop.py: selector, TCP, clock, executor) and the harness-side "
             "oracles; the code explored is the unmodified aioftp imported from /repo/src. Bounds are stated in the "
@@ -65,6 +70,23 @@ CHECKS = [
              "transcript, received data and tree effects must equal its solo run.",
      "design_ref": "DESIGN.md §5 C17", "note": ENV_NOTE,
      "technique": "exhaustive interleaving enumeration + deviation-bounded stateless schedule exploration, solo run as oracle"},
+    {"property_id": "C05", "level": "model_checking",
+     "text": "Breadth-first search over command histories (80-symbol alphabet: all 25 verbs with existing/missing/file/"
+             "dir/alias arguments, 10 REST spellings incl. non-ASCII digits, TYPE/PROT/EPSV variants, unknown verbs, empty "
+             "line, data connection made or not) with the real dispatcher as transition function on each backend; every "
+             "step is compared with a sequential reference model: number/order/code of replies, PWD and MLST text, "
+             "transferred bytes, listing names, the whole tree, and whether the server ended the session; states "
+             "de-duplicated on (model state, white-box connection digest), plus non-de-duplicated sweeps.",
+     "design_ref": "DESIGN.md §5 C05", "note": ENV_NOTE + " The reference model (vf/model.py) is trusted; its deliberate looseness is listed in DESIGN.md §4.1.",
+     "technique": "explicit-state BFS over command histories with the implementation as transition function, checked against a reference model"},
+    {"property_id": "C18", "level": "model_checking",
+     "text": "Relational BFS: every FTP history over a 54-symbol tree-relevant alphabet (renames onto/into/through files "
+             "and directories, transfers with restart offsets to new and existing files, paths through files) is replayed "
+             "on MemoryPathIO, PathIO and AsyncPathIO and compared step by step (reply classes, bytes, listing names, "
+             "tree; failed commands change nothing); at the backend API 233 operations over the same universe are "
+             "explored breadth-first on PathIO vs AsyncPathIO (result-or-failure and tree).",
+     "design_ref": "DESIGN.md §5 C18", "note": ENV_NOTE,
+     "technique": "explicit-state relational BFS: the same histories executed on three implementations and compared"},
 ]
 
 _ALL = [f"C{i:02d}" for i in range(1, 21)]
